@@ -43,7 +43,10 @@ void igris::vtermxx::newdata(int16_t input_c)
             break;
 
         case 2:
-            if (input_c < 0)
+            // only VTERMXX_INIT_STEP (-1) means "no character": a byte >= 0x80
+            // held in a (signed) char arrives here sign-extended, i.e.
+            // negative, and used to be dropped (all of UTF-8)
+            if (input_c == VTERMXX_INIT_STEP)
             {
                 return_flag = 1;
                 break;
@@ -51,7 +54,7 @@ void igris::vtermxx::newdata(int16_t input_c)
             else
             {
                 c = (char)input_c;
-                input_c = -1;
+                input_c = VTERMXX_INIT_STEP;
                 state = 3;
             }
             break;
